@@ -297,10 +297,20 @@ func TestVerifC28(t *testing.T) {
 			"/get?path=cam&start=" + start.Add(1200*time.Millisecond).Format(time.RFC3339Nano) + "&duration=1.5&format=mp4",
 			"/get?path=cam&start=" + start.Add(2500*time.Millisecond).Format(time.RFC3339Nano) + "&duration=0.2",
 		}
+		// windows that select the damaged segment alone
+		if ts, terr := c29SegStart(target); terr == nil {
+			reqs = append(reqs,
+				"/list?path=cam&start="+ts.Add(100*time.Millisecond).UTC().Format(time.RFC3339Nano)+"&end="+ts.Add(600*time.Millisecond).UTC().Format(time.RFC3339Nano),
+				"/list?path=cam&start="+ts.Add(100*time.Millisecond).UTC().Format(time.RFC3339Nano),
+				"/get?path=cam&start="+ts.Add(100*time.Millisecond).UTC().Format(time.RFC3339Nano)+"&duration=0.3")
+			if target == rec.Segments[0] {
+				reqs = append(reqs, "/list?path=cam&end="+ts.Add(500*time.Millisecond).UTC().Format(time.RFC3339Nano))
+			}
+		}
 		r.SetCurrent(map[string]any{"variant": v.kind, "target": filepath.Base(target), "extra": extra})
 		for _, q := range reqs {
 			res, err := hc.Get(base + strings.ReplaceAll(q, "+", "%2B"))
-			r.Eval(fmt.Sprintf("%s|%d|%s", v.kind, vi%4, q[:5]))
+			r.Eval(fmt.Sprintf("%s|%d|%d|%s", v.kind, vi%4, len(q), q[:5]))
 			r.SetAdd("variant_classes", strings.SplitN(strings.SplitN(v.kind, "=", 2)[0], "@", 2)[0])
 			if err == nil {
 				body, _ := io.ReadAll(res.Body)
